@@ -257,11 +257,14 @@ fn displaced(rep: &mut Report, rng: &mut Rng, n: usize) {
                 if t.len() != want.len() { return Some(format!("len = {}, expected {}", t.len(), want.len())); }
                 for (kname, val) in [("lt", rng.below(4) as u32), ("ge", rng.below(4) as u32), ("eqc", rng.below(4) as u32), ("gt", rng.below(4) as u32), ("le", rng.below(4) as u32)] {
                     let cs = [(kname, 2usize, val)];
+                    // the same range on the Lean model (theorem C16_displaced_ts_range); `none` = no fast subset
+                    ll.push(format!("dt sub {kname} {val}"));
                     if let Some(sub) = t.fast_subset(&cs_real(&cs)[0]) {
                         let mut got = vec![]; t.scan_generic(sub.as_ref(), |_, row| got.push(row.iter().map(|y| y.rep()).collect::<Vec<u32>>()));
                         let w: Vec<Vec<u32>> = want.iter().filter(|r| cs_eval(&cs, r)).cloned().collect();
                         if got != w { return Some(format!("fast_subset({kname} ts {val}) = {got:?}, expected {w:?}")); }
-                    }
+                        lw.push((ll.len() - 1, format!("{hist:?} fast_subset({kname} ts {val})"), got.iter().map(|r| r.iter().map(|x| x.to_string()).collect::<Vec<_>>().join(",")).collect::<Vec<_>>().join(" ")));
+                    } else { lw.push((ll.len() - 1, format!("{hist:?} fast_subset({kname} ts {val})"), "none".to_string())); }
                 }
                 let x = rng.below(ids as usize) as u32;
                 if let Some(sub) = t.fast_subset(&Constraint::EqConst { col: ColumnId::new(0), val: v(x) }) {
